@@ -185,6 +185,7 @@ func (g *gen) stubs(ix *astIndex, outDir string) {
 	regs := g.registrations(ix)
 	seen := map[string]bool{}
 	var declAll []string
+	declByTag := map[string][]string{}
 	for _, r := range regs {
 		if seen[r.tag] {
 			continue
@@ -195,6 +196,7 @@ func (g *gen) stubs(ix *astIndex, outDir string) {
 			continue
 		}
 		declAll = append(declAll, declared...)
+		declByTag[r.tag] = declared
 		eb.WriteString(fmt.Sprintf("\t%q: {", r.tag))
 		for i, v := range vals {
 			if i > 0 {
@@ -211,6 +213,22 @@ func (g *gen) stubs(ix *astIndex, outDir string) {
 			continue
 		}
 		eb.WriteString(fmt.Sprintf("%q, ", v))
+	}
+	eb.WriteString("}\n\n// declared constants of the enumeration type validated under each tag\nvar enumDeclaredByTag = map[string][]string{\n")
+	var tnames []string
+	for t := range declByTag {
+		tnames = append(tnames, t)
+	}
+	sort.Strings(tnames)
+	for _, t := range tnames {
+		eb.WriteString(fmt.Sprintf("\t%q: {", t))
+		for i, v := range declByTag[t] {
+			if i > 0 {
+				eb.WriteString(", ")
+			}
+			eb.WriteString(fmt.Sprintf("%q", v))
+		}
+		eb.WriteString("},\n")
 	}
 	eb.WriteString("}\n")
 	writeIfChangedPath(filepath.Join(outDir, "gen_enums.go"), eb.String())
